@@ -40,6 +40,7 @@ class SimLoop(asyncio.BaseEventLoop):
         self.exec_cancel_skips = lambda: False  # tape hook
         self.exec_jobs = 0
         self._exec_last = 0.0
+        self._exec_pending: list[tuple] = []
         self.on_exec_submit = None  # hook(func): called synchronously when a job is handed to the executor
         self.connection_factory = None  # hook: async (protocol_factory, host, port) -> (transport, protocol)
         self.crashed = False
@@ -143,10 +144,27 @@ class SimLoop(asyncio.BaseEventLoop):
                 if not fut.done():
                     fut.set_result(result)
 
-        # jobs complete in submission order (one worker thread): a job that was submitted earlier never
-        # lands after a later one. Reordering between pool threads is not modelled (DESIGN section 8).
-        when = max(self._exec_last, self._vt + latency)
-        self._exec_last = when
+        # A job never lands before an earlier job of the SAME task, nor before an earlier job that has been
+        # ABANDONED (its awaiter was cancelled or its task is gone): such a job is one short system call that is
+        # already running in its pool thread, and it is assumed to land in arrival order (DESIGN section 8/9.1).
+        # Jobs that two LIVE tasks are awaiting at the same time may complete in either order - that is the
+        # thread pool's real freedom, and the latency tape decides it.
+        try:
+            me = asyncio.current_task(self)
+        except RuntimeError:
+            me = None
+        floor = self._vt + latency
+        keep = []
+        for e_when, e_fut, e_task in self._exec_pending:
+            if e_when < self._vt:
+                continue
+            keep.append((e_when, e_fut, e_task))
+            if e_task is None or me is None or e_task is me or e_fut.cancelled() or e_task.done():
+                floor = max(floor, e_when)
+        when = floor
+        keep.append((when, fut, me))
+        self._exec_pending = keep
+        self._exec_last = max(self._exec_last, when)
         self.call_at(when, job)
         return fut
 
